@@ -29,31 +29,34 @@ Definition c11_stages (lm : list nat) (Ldist : list (list Qc))
 
 (* LandmarkMultidimensionalScaling embed() after the landmark choice, through the very function
    the theorems are about (lmds_embed); V = the L x d selected eigenvectors (placed in the last d
-   columns of the dense answer), lam = the d selected values *)
-Definition c11_lmds_embed (N d : nat) (lm : list nat) (Ldist V : list (list Qc))
+   columns of the dense answer), lam = the d selected values, keep = the outcomes of the
+   null-eigenvalue comparison of triangulate (recomputed bit-exactly by the check) *)
+Definition c11_lmds_embed (N d : nat) (keep : list bool) (lm : list nat) (Ldist V : list (list Qc))
            (lam s : list Qc) : lres (list (option (list Qc))) :=
   let L := length lm in
   let W : mat Qc := fun r c => mof V r (c - (L - d)) in
   let w : vec Qc := fun c => vof lam (c - (L - d)) in
-  match @lmds_embed Qc QcOps N d lm (mof Ldist) W w (vof s) with
+  match @lmds_embed Qc QcOps N d (fun c => nth c keep true) lm (mof Ldist) W w (vof s) with
   | LOk ws => LOk (emb_table N d ws)
   | LOOB a b c => LOOB a b c
   end.
 
 (* triangulate alone, on harness-chosen mean vector / landmark embedding / eigenvalues;
    also returns first after the in-place division *)
-Definition c11_triangulate (N d : nat) (lm : list nat) (Ldist : list (list Qc)) (mu : list Qc)
-           (first : list (list Qc)) (second : list Qc)
+Definition c11_triangulate (N d : nat) (keep : list bool) (lm : list nat) (Ldist : list (list Qc))
+           (mu : list Qc) (first : list (list Qc)) (second : list Qc)
   : lres (list (option (list Qc)) * list (list Qc)) :=
   let E := {| er_rows := length first; er_cols := match first with r :: _ => length r | [] => d end;
               er_first := mof first; er_size := length second; er_second := vof second |} in
-  match @triangulate Qc QcOps N d lm (mof Ldist) (length mu) (vof mu) E with
-  | LOk ws => LOk (emb_table N d ws, mtab (length first) d (tri_divide d E))
+  let k := fun c => nth c keep true in
+  match @triangulate Qc QcOps N d k lm (mof Ldist) (length mu) (vof mu) E with
+  | LOk ws => LOk (emb_table N d ws, mtab (length first) d (tri_divide d k E))
   | LOOB a b c => LOOB a b c
   end.
 
 (* memoised variant for larger sizes (tolerance stream) *)
-Definition c11_lmds_tri_exec := @lmds_tri_exec Qc QcOps.
+Definition c11_lmds_tri_exec (N d : nat) (keep : list bool) :=
+  @lmds_tri_exec Qc QcOps N d (fun c => nth c keep true).
 
 Definition c11_lisomap_matrix := @lisomap_matrix_exec Qc QcOps.
 Definition c11_lisomap_embed := @lisomap_embed_exec Qc QcOps.
